@@ -185,7 +185,12 @@ def render_json(src, fl, voc):
             top["bundle"][qname(b["id"])] = json_container(b["recs"], fl, voc, bool(fl.get("bprefix")))
     if fl.get("keys") == "reversed":
         top = dict(reversed(list(top.items())))
-    return json.dumps(top, indent=1 if fl.get("indent") else None)
+    text = json.dumps(top, indent=1 if fl.get("indent") else None)
+    if fl.get("xsdp") == "xs":
+        # the XML Schema datatypes under a declared prefix of the author's choice
+        top.setdefault("prefix", {})["xs"] = "http://www.w3.org/2001/XMLSchema#"
+        text = json.dumps(top, indent=1 if fl.get("indent") else None).replace('"xsd:', '"xs:')
+    return text
 
 
 # ---------------------------------------------------------------- PROV-XML
@@ -291,7 +296,11 @@ def render_xml(src, fl, voc):
         parts.append("</prov:bundleContent>")
     parts.append("</prov:document>")
     sep = "\n  " if fl.get("indent") else ""
-    return '<?xml version="1.0" encoding="UTF-8"?>\n' + sep.join(parts)
+    text = '<?xml version="1.0" encoding="UTF-8"?>\n' + sep.join(parts)
+    if fl.get("xsdp") == "xs":
+        # the XML Schema namespace bound to another prefix (what counts is the URI)
+        text = text.replace('xmlns:xsd=', 'xmlns:xs=').replace('="xsd:', '="xs:')
+    return text
 
 
 # ---------------------------------------------------------------- the experiment
